@@ -935,6 +935,12 @@ def run(ctx):
             r10.check(v[0], inst, v[1], v[2], v[3])
     r10.expect_min(5)
 
+    r11 = rep.rule('C20.11-control-file-lifetimes', 'R-TYPESTATE', 'qmail-send on HUP: a routing table in use never points into a buffer that the next re-read of the control files fills before it knows whether it will succeed, and nothing is freed before both files were read (no use of freed or overwritten memory after a half-failed re-read; decided by C10.5\'s exploration of regetcontrols over the read outcomes)')
+    for inst, v in sorted(_libtab.borrow(ctx, 'C10', {'C10.5-HUP'}).items()):
+        if inst.endswith('live-maps-own-their-text') or inst.endswith('reread-succeeds-before-anything-is-freed') or 'free-before-init' in inst:
+            r11.check(v[0], inst.split('/', 1)[1], v[1], v[2], v[3])
+    r11.expect_min(3)
+
     r7 = rep.rule('C20.7-output-buffering', 'R-BOUND', 'substdio_put / substdio_bput on a 16-byte buffer with 0, 3 or 16 bytes buffered and 0..20000 bytes put: every store stays inside the buffer, and bytes written + bytes buffered = bytes handed in')
     from rules import libtab
     for inst, v in sorted(libtab.substdio_put_sites(db, rep, db.program('qmail-smtpd')).items()):
